@@ -153,6 +153,9 @@ where
                 let (expected_generation, actual_generation) =
                     regional_state.initialize(&self.global_state.latest_value);
 
+                #[cfg(folo_verif)]
+                crate::__verif::point("with_in_region/initialized");
+
                 // The commit will fail if the generation of the value we set does not match
                 // the generation of the value that was initialized. We do not know which one
                 // is the correct one, so we just retry until we get a match.
@@ -528,9 +531,18 @@ where
             // initialize with. A `set_global()` that publishes a newer value after this point
             // also invalidates the region after this point, which removes our "initializing"
             // value, so we can tell below that our clone is out of date.
+            #[cfg(folo_verif)]
+            crate::__verif::point("initialize/announced");
+
             let value = latest_value.load();
 
+            #[cfg(folo_verif)]
+            crate::__verif::point("initialize/latest-loaded");
+
             let new_value = RegionalValue::Ready(GenerationValue::clone(&value));
+
+            #[cfg(folo_verif)]
+            crate::__verif::point("initialize/cloned");
 
             // It is possible that another thread has assigned a new global value while we were
             // cloning, so our `value` is out of date already. In that case the region has been
